@@ -1,10 +1,12 @@
 import DendroModel.Model.C04
 import DendroModel.Model.C04State
+import DendroModel.Model.C07
 import DendroModel.Props.C01
 import DendroModel.Theory.C04Bridge
 import DendroModel.Theory.C04Nodup
 import DendroModel.Theory.C04Seed
 import DendroModel.Theory.C04Sum
+import DendroModel.Theory.C04UNodup
 import Mathlib.Data.Finset.SymmDiff
 import Mathlib.Data.Finset.Card
 import Mathlib.Data.List.Dedup
@@ -701,7 +703,9 @@ theorem fpfn_child_order_partial (r r2 : Option Bool) (t t' u : T) (h : CIso t t
     tree's splits are pairwise distinct (`hn`; otherwise the split → edge map keeps only the last edge of a repeated split
     and the value does depend on the order: the known finding `basal-bifurcation-survives-encoding`).
     `_partial`: as for `fpfn_child_order_partial`, a not-rooted tree with a bifurcating seed and seed moves are not covered;
-    nor is the insertion of unifurcations (which needs `Frac` addition to be exact, a fact about `addLen` not proved here). -/
+    nor is the insertion of unifurcations (which needs `Frac` addition to be exact, a fact about `addLen` not proved here).
+    SUPERSEDED: `hn` is discharged in `dist_child_order_rooted` / `dist_child_order_unrooted`; unifurcation insertion and seed
+    moves are covered by `dist_redraw_rooted` / `dist_redraw_unrooted`. -/
 theorem dist_child_order_partial (r r2 : Option Bool) (t t' u : T) (h : CIso t t') (hr : r = some true ∨ t.cs.length ≠ 2)
     (hn : ((edgeRecs r t).map (·.split)).Nodup) :
     wrf (edgeMap (edgeRecs r t)) (edgeMap (edgeRecs r2 u)) = wrf (edgeMap (edgeRecs r t')) (edgeMap (edgeRecs r2 u))
@@ -1215,7 +1219,8 @@ open DendroModel DendroModel.C04.Aux
     Euclid² against any third tree agree whenever both are defined and are 0 between the two drawings.
     Missing for the full clause: the two `Nodup` hypotheses are assumed, not derived (for a rooted tree they follow from
     `rooted_splits_nodup`; the analogue for normalised splits of a tree whose seed has ≥ 3 children is not proved here), and
-    the iteration along a path is proved for the unweighted distances only (`fpfn_seed_path`). -/
+    the iteration along a path is proved for the unweighted distances only (`fpfn_seed_path`).
+    SUPERSEDED by `dist_seed_move` (both `Nodup` hypotheses discharged) and `dist_redraw_unrooted` (whole paths). -/
 theorem dist_seed_move_partial (r r2 : Option Bool) (hr : r ≠ some true) (u : T)
     (i : Nat) (x : Option Nat) (l : Option Frac) (s : Option String) (pre : List T)
     (j : Nat) (y : Option Nat) (lj : Option Frac) (sj : Option String) (ds post : List T)
@@ -1490,4 +1495,452 @@ example : Hier.Good (T.toH exU) ∧ Hier.Good (T.toH exW) ∧ exU.mask = exW.mas
   all_goals (show _ ∈ Hier.bits _; simp [Hier.bits]; decide)
 example : rf ((edgeRecs (some false) exU).map (·.split)) ((edgeRecs none exW).map (·.split)) = 0 := by decide
 example : (edgeRecs (some false) exW).map (·.split) = [14, 2, 12, 4, 8, 0] := by decide
+end DendroModel.C04
+
+/-! ## last round: distinct unrooted splits; weighted distances along paths of re-drawing steps -/
+
+namespace DendroModel.C04.Aux
+open DendroModel DendroModel.C04
+
+/-- the normalised splits of a model tree whose mask-labelled view is well formed and unifurcation-free and whose seed has
+    at least three children are pairwise distinct -/
+theorem unrooted_masks_nodup (t2 : T) (hg : Hier.Good (T.toH t2)) (hn : Hier.NoUnif (T.toH t2)) (h3 : 3 ≤ t2.cs.length) :
+    ((T.masksPost t2).map (fun m => C01.splitOf false t2.mask m)).Nodup := by
+  match t2, hg, hn, h3 with
+  | .node i x l s (c :: cs), hg, hn, h3 =>
+    have hlen : 3 ≤ (T.toHL (c :: cs)).length := by rw [C01.Aux.toHL_length]; exact h3
+    have hH : T.toH (.node i x l s (c :: cs)) = .node (T.toHL (c :: cs)) := rfl
+    rw [hH] at hg hn
+    simp only [Hier.Good] at hg
+    simp only [Hier.NoUnif] at hn
+    have key := Hier.nsplits_nodup (Lsb.lsb (T.mask (.node i x l s (c :: cs)))) hg hn.2 hlen
+    have hF : (fun m => C01.splitOf false (T.mask (.node i x l s (c :: cs))) m)
+        = (fun m => Int.ofNat (Hier.norm (T.mask (.node i x l s (c :: cs))) (Lsb.lsb (T.mask (.node i x l s (c :: cs)))) m)) := by
+      funext m; rw [C01.split_spec]; simp
+    rw [hF, show (fun m => Int.ofNat (Hier.norm (T.mask (.node i x l s (c :: cs))) (Lsb.lsb (T.mask (.node i x l s (c :: cs)))) m))
+        = Int.ofNat ∘ (Hier.norm (T.mask (.node i x l s (c :: cs))) (Lsb.lsb (T.mask (.node i x l s (c :: cs))))) from rfl, ← List.map_map]
+    apply List.Nodup.map (fun _ _ h => Int.ofNat.inj h)
+    rw [((masksPost_perm (.node i x l s (c :: cs))).map _).nodup_iff, hH]
+    have hm : Hier.mask (.node (T.toHL (c :: cs))) = T.mask (.node i x l s (c :: cs)) := by rw [← hH, C01.Aux.toH_mask]
+    unfold Hier.nsplits at key
+    rw [hm] at key
+    exact key
+
+end DendroModel.C04.Aux
+
+namespace DendroModel.C04
+open DendroModel DendroModel.C04.Aux
+
+/-- **no two edges of a well-formed tree that is not rooted induce the same split, once its seed has at least three children**
+    (no basal collapse involved: `hr`; the collapse case is `unrooted_splits_nodup`).  The `Nodup` hypothesis of
+    `dist_child_order_partial` / `dist_seed_move_partial` / `lenAt_eq_split_sum` is hereby a theorem. -/
+theorem unrooted_splits_nodup_nocollapse (r : Option Bool) (hr : r ≠ some true) (t : T) (hc : t.cs.length ≠ 2)
+    (hg : Hier.Good (T.toH t)) (h0 : T.mask t ≠ 0) (hdeg : 3 ≤ (T.sup t).cs.length) :
+    ((edgeRecs r t).map (·.split)).Nodup := by
+  have hb : (r == some true) = false := by
+    cases r with
+    | none => rfl
+    | some b => cases b <;> simp_all
+  rw [edgeRecs_splits]
+  simp only [C01.encode, encodeTree_sup r t (Or.inr hc), List.map_map, hb]
+  have := unrooted_masks_nodup (T.sup t) (by rw [C01.Aux.sup_toH]; exact Hier.sup_good _ hg)
+    (by rw [C01.Aux.sup_toH]; exact Hier.sup_noUnif _ hg (by rw [C01.Aux.toH_mask]; exact h0)) hdeg
+  exact this
+
+end DendroModel.C04
+
+namespace DendroModel.C04.Aux
+open DendroModel DendroModel.C04
+
+theorem toHL_append : ∀ a b : List T, T.toHL (a ++ b) = T.toHL a ++ T.toHL b
+  | [], b => by simp [T.toHL]
+  | c :: a, b => by simp [T.toHL, toHL_append a b]
+
+theorem toH_of_cs (t : T) (h : 1 ≤ t.cs.length) : T.toH t = .node (T.toHL t.cs) := by
+  match t, h with
+  | .node i x l s (c :: cs), _ => rfl
+
+/-- opening up a basal bifurcation keeps the mask-labelled view well formed -/
+theorem good_collapse (t : T) (hg : Hier.Good (T.toH t)) : Hier.Good (T.toH t.collapseBasal) := by
+  match t, hg with
+  | .node i x l s [a, b], hg =>
+    have hH : T.toH (.node i x l s [a, b]) = .node [T.toH a, T.toH b] := rfl
+    rw [hH] at hg
+    simp only [Hier.Good, Hier.GoodL, Hier.maskL, Nat.or_zero] at hg
+    obtain ⟨ga, a0, dab, gb, b0, _, _⟩ := hg
+    simp only [T.collapseBasal]
+    by_cases hb : b.cs.length ≥ 2
+    · rw [if_pos hb]
+      have hbH := toH_of_cs b (by omega)
+      have : T.toH (.node i x l s (a.withLen (tryAdd a.len b.len) :: b.cs)) = .node (T.toH a :: T.toHL b.cs) := by
+        simp [T.toH, T.toHL, C01.Aux.withLen_toH]
+      rw [this]
+      rw [hbH] at gb dab
+      simp only [Hier.Good, Hier.mask] at gb dab
+      simp only [Hier.Good, Hier.GoodL]
+      exact ⟨ga, a0, dab, gb⟩
+    · rw [if_neg hb]
+      by_cases ha : a.cs.length ≥ 2
+      · rw [if_pos ha]
+        have haH := toH_of_cs a (by omega)
+        have hne : a.cs ++ [b.withLen (tryAdd b.len a.len)] ≠ [] := by simp
+        have : T.toH (.node i x l s (a.cs ++ [b.withLen (tryAdd b.len a.len)])) = .node (T.toHL a.cs ++ [T.toH b]) := by
+          rw [toH_of_cs _ (by simp [T.cs])]
+          simp [T.cs, toHL_append, T.toHL, C01.Aux.withLen_toH]
+        rw [this]
+        rw [haH] at ga dab
+        simp only [Hier.Good, Hier.mask] at ga dab
+        simp only [Hier.Good]
+        apply Hier.goodL_snoc ga gb b0
+        intro c hc
+        have hsub := Hier.bits_maskL_subset_of_mem hc
+        rw [Hier.and_eq_zero_iff]
+        exact Set.disjoint_of_subset_left hsub ((Hier.and_eq_zero_iff _ _).mp dab)
+      · rw [if_neg ha]; rw [hH]; simp only [Hier.Good, Hier.GoodL, Hier.maskL, Nat.or_zero]; exact ⟨ga, a0, dab, gb, b0, by simp, trivial⟩
+  | .node i x l s [], hg => simpa [T.collapseBasal] using hg
+  | .node i x l s [a], hg => simpa [T.collapseBasal] using hg
+  | .node i x l s (a :: b :: c :: rest), hg => simpa [T.collapseBasal] using hg
+
+end DendroModel.C04.Aux
+
+namespace DendroModel.C04
+open DendroModel DendroModel.C04.Aux
+
+/-- **no two edges of a well-formed tree that is not rooted induce the same split, as soon as its seed has at least three
+    children after encoding** (basal collapse included).  This is the fact the known finding `basal-bifurcation-survives-encoding`
+    is the exception to: with a seed that is still bifurcating after encoding the two basal edges share their split. -/
+theorem unrooted_splits_nodup (r : Option Bool) (hr : r ≠ some true) (t : T)
+    (hg : Hier.Good (T.toH t)) (h0 : T.mask t ≠ 0) (hdeg : 3 ≤ (C01.encodeTree r true true t).cs.length) :
+    ((edgeRecs r t).map (·.split)).Nodup := by
+  have hb : (r == some true) = false := by
+    cases r with
+    | none => rfl
+    | some b => cases b <;> simp_all
+  rw [edgeRecs_splits]
+  simp only [C01.encode, List.map_map, hb]
+  -- the tree before suppression
+  obtain ⟨t1, ht1, hg1, hm1⟩ : ∃ t1, C01.encodeTree r true true t = T.sup t1 ∧ Hier.Good (T.toH t1) ∧ t1.mask ≠ 0 := by
+    unfold C01.encodeTree
+    by_cases hc : t.cs.length = 2
+    · refine ⟨t.collapseBasal, by simp [hc, hr], good_collapse t hg, ?_⟩
+      rw [C01.Bridge.collapse_mask]; exact h0
+    · exact ⟨t, by simp [hc], hg, h0⟩
+  rw [ht1] at hdeg ⊢
+  exact unrooted_masks_nodup (T.sup t1) (by rw [C01.Aux.sup_toH]; exact Hier.sup_good _ hg1)
+    (by rw [C01.Aux.sup_toH]; exact Hier.sup_noUnif _ hg1 (by rw [C01.Aux.toH_mask]; exact hm1)) hdeg
+
+example : 3 ≤ (C01.encodeTree (some false) true true exW).cs.length ∧ 3 ≤ (C01.encodeTree none true true exU).cs.length := by decide
+
+end DendroModel.C04
+
+namespace DendroModel.C04
+open DendroModel DendroModel.C04.Aux
+
+/-- **reordering the children of a well-formed tree that is not rooted changes no weighted distance** — `dist_child_order_partial`
+    with its `Nodup` hypothesis discharged by `unrooted_splits_nodup`.  Hypotheses, exactly: the seed is not bifurcating as drawn
+    (`hc`: no basal collapse, whose choice of the kept child depends on the order — that case is covered, for values, by
+    `dist_redraw_unrooted`) and has at least three children once unifurcations are suppressed (`hdeg`; with two, the two basal
+    edges share a split and the claim is FALSE: known finding `basal-bifurcation-survives-encoding`). -/
+theorem dist_child_order_unrooted (r r2 : Option Bool) (hr : r ≠ some true) (t t' u : T) (h : CIso t t') (hc : t.cs.length ≠ 2)
+    (hg : Hier.Good (T.toH t)) (h0 : T.mask t ≠ 0) (hdeg : 3 ≤ (T.sup t).cs.length) :
+    wrf (edgeMap (edgeRecs r t)) (edgeMap (edgeRecs r2 u)) = wrf (edgeMap (edgeRecs r t')) (edgeMap (edgeRecs r2 u))
+    ∧ wrf (edgeMap (edgeRecs r2 u)) (edgeMap (edgeRecs r t)) = wrf (edgeMap (edgeRecs r2 u)) (edgeMap (edgeRecs r t'))
+    ∧ euclidSq (edgeMap (edgeRecs r t)) (edgeMap (edgeRecs r2 u)) = euclidSq (edgeMap (edgeRecs r t')) (edgeMap (edgeRecs r2 u))
+    ∧ euclidSq (edgeMap (edgeRecs r2 u)) (edgeMap (edgeRecs r t)) = euclidSq (edgeMap (edgeRecs r2 u)) (edgeMap (edgeRecs r t'))
+    ∧ (∀ w, wrf (edgeMap (edgeRecs r t)) (edgeMap (edgeRecs r t')) = some w → w = 0)
+    ∧ (∀ w, euclidSq (edgeMap (edgeRecs r t)) (edgeMap (edgeRecs r t')) = some w → w = 0) :=
+  dist_child_order_partial r r2 t t' u h (Or.inr hc)
+    (unrooted_splits_nodup r hr t hg h0 (by rw [encodeTree_sup r t (Or.inr hc)]; exact hdeg))
+
+example : exU.cs.length ≠ 2 ∧ 3 ≤ (T.sup exU).cs.length ∧ Hier.Good (T.toH exU) ∧ T.mask exU ≠ 0 := by
+  refine ⟨by decide, by decide, ?_, by decide⟩
+  simp [exU, T.toH, T.toHL, Hier.Good, Hier.GoodL, Hier.mask, Hier.maskL]
+
+end DendroModel.C04
+
+namespace DendroModel.C04.Aux
+open DendroModel DendroModel.C04
+
+/-- the per-split length table of a tree that is not rooted, read off the tree AS DRAWN: total length of the drawn edges whose
+    leafset normalises to `k` (this is the table the Python oracle builds from scratch) -/
+def usum (t : T) (k : Int) : Rat := psum (fun m => C01.splitOf false t.mask m == k) (edgesPost true t)
+
+/-- re-drawings of a tree that is not rooted: everything `Redraw` allows (children reordered, unifurcations inserted with the
+    length split, anywhere in the tree), plus moving the seed to an internal child of the seed (`invertT`), in any sequence -/
+inductive URedraw : T → T → Prop
+  | redraw {a b : T} : Redraw a b → URedraw a b
+  | move (i : Nat) (x : Option Nat) (l : Option Frac) (s : Option String) (pre : List T)
+      (j : Nat) (y : Option Nat) (lj : Option Frac) (sj : Option String) (ds post : List T)
+      (hds : ds ≠ []) (hpp : pre ++ post ≠ []) (hdis : T.maskL ds &&& T.maskL (pre ++ post) = 0) :
+      URedraw (.node i x l s (pre ++ .node j y lj sj ds :: post)) (invertT i x l s pre j y lj sj ds post)
+  | symm {a b : T} : URedraw a b → URedraw b a
+  | trans {a b c : T} : URedraw a b → URedraw b c → URedraw a c
+
+theorem uredraw_mask {a b : T} (h : URedraw a b) : a.mask = b.mask := by
+  induction h with
+  | redraw h => exact (redraw_inv h).1
+  | move i x l s pre j y lj sj ds post hds hpp _ => exact (invert_mask i x l s pre j y lj sj ds post hds hpp).symm
+  | symm _ ih => exact ih.symm
+  | trans _ _ ih1 ih2 => exact ih1.trans ih2
+
+/-- the set of normalised splits of the tree as drawn -/
+def USet (t : T) (z : Int) : Prop := ∃ m ∈ T.masksPost t, C01.splitOf false t.mask m = z
+
+theorem move_inv (i : Nat) (x : Option Nat) (l : Option Frac) (s : Option String) (pre : List T)
+    (j : Nat) (y : Option Nat) (lj : Option Frac) (sj : Option String) (ds post : List T)
+    (hds : ds ≠ []) (hpp : pre ++ post ≠ []) (hdis : T.maskL ds &&& T.maskL (pre ++ post) = 0)
+    (h0 : T.mask (.node i x l s (pre ++ .node j y lj sj ds :: post)) ≠ 0) :
+    (∀ k, usum (.node i x l s (pre ++ .node j y lj sj ds :: post)) k = usum (invertT i x l s pre j y lj sj ds post) k)
+    ∧ (∀ z, USet (.node i x l s (pre ++ .node j y lj sj ds :: post)) z ↔ USet (invertT i x l s pre j y lj sj ds post) z) := by
+  set t : T := .node i x l s (pre ++ .node j y lj sj ds :: post) with ht
+  set t' : T := invertT i x l s pre j y lj sj ds post with ht'
+  have hm : t'.mask = t.mask := invert_mask i x l s pre j y lj sj ds post hds hpp
+  have hLeq : t.mask = T.maskL ds ||| T.maskL (pre ++ post) := by
+    rw [ht, mask_of_ne_nil _ _ _ _ (by simp), maskL_append, maskL_append]
+    simp only [T.maskL]
+    rw [mask_of_ne_nil _ _ _ _ hds]
+    ac_rfl
+  have hF : C01.splitOf false t.mask (T.maskL ds) = C01.splitOf false t.mask (T.maskL (pre ++ post)) :=
+    splitOf_invert t.mask _ _ hLeq hdis h0
+  constructor
+  · intro k
+    unfold usum
+    rw [hm]
+    exact (psum_invert _ i x l s pre j y lj sj ds post hds hpp (by rw [hF])).symm
+  · intro z
+    unfold USet
+    rw [hm]
+    have hD : T.mask (.node j y lj sj ds) = T.maskL ds := mask_of_ne_nil _ _ _ _ hds
+    have hR : T.mask (.node i x lj s (pre ++ post)) = T.maskL (pre ++ post) := mask_of_ne_nil _ _ _ _ hpp
+    have hm' : T.mask (.node j y l sj (ds ++ [.node i x lj s (pre ++ post)])) = t.mask := hm
+    simp only [ht, ht', invertT, masksPost_eq, T.cs, masksPostL_append', T.masksPostL, List.append_nil, List.mem_append,
+      List.mem_singleton, hD, hR, hm']
+    constructor
+    · rintro ⟨m, hmm, rfl⟩
+      rcases hmm with (h | (h | h) | h) | h
+      · exact ⟨m, Or.inl (Or.inr (Or.inl (Or.inl h))), rfl⟩
+      · exact ⟨m, Or.inl (Or.inl h), rfl⟩
+      · subst h; exact ⟨T.maskL (pre ++ post), Or.inl (Or.inr (Or.inr rfl)), hF.symm⟩
+      · exact ⟨m, Or.inl (Or.inr (Or.inl (Or.inr h))), rfl⟩
+      · exact ⟨m, Or.inr h, rfl⟩
+    · rintro ⟨m, hmm, rfl⟩
+      rcases hmm with (h | (h | h) | h) | h
+      · exact ⟨m, Or.inl (Or.inr (Or.inl (Or.inl h))), rfl⟩
+      · exact ⟨m, Or.inl (Or.inl h), rfl⟩
+      · exact ⟨m, Or.inl (Or.inr (Or.inr h)), rfl⟩
+      · subst h; exact ⟨T.maskL ds, Or.inl (Or.inr (Or.inl (Or.inr rfl))), hF⟩
+      · exact ⟨m, Or.inr h, rfl⟩
+
+/-- what any sequence of re-drawing steps keeps: the per-split length table and the split set of the tree as drawn -/
+theorem uredraw_inv {a b : T} (h : URedraw a b) : a.mask ≠ 0 →
+    (∀ k, usum a k = usum b k) ∧ (∀ z, USet a z ↔ USet b z) := by
+  induction h with
+  | redraw h =>
+    intro _
+    obtain ⟨hm, hp, hs⟩ := redraw_inv h
+    refine ⟨fun k => ?_, fun z => ?_⟩
+    · unfold usum; rw [← hm]; exact hp _ true
+    · unfold USet; rw [← hm]
+      constructor
+      · rintro ⟨m, h1, rfl⟩; exact ⟨m, (hs m).mp h1, rfl⟩
+      · rintro ⟨m, h1, rfl⟩; exact ⟨m, (hs m).mpr h1, rfl⟩
+  | move i x l s pre j y lj sj ds post hds hpp hdis =>
+    intro h0; exact move_inv i x l s pre j y lj sj ds post hds hpp hdis h0
+  | symm hab ih =>
+    intro h0
+    have := ih (by rw [uredraw_mask hab]; exact h0)
+    exact ⟨fun k => (this.1 k).symm, fun z => (this.2 z).symm⟩
+  | trans hab _ ih1 ih2 =>
+    intro h0
+    have i1 := ih1 h0
+    have i2 := ih2 (by rw [← uredraw_mask hab]; exact h0)
+    exact ⟨fun k => (i1.1 k).trans (i2.1 k), fun z => (i1.2 z).trans (i2.2 z)⟩
+
+end DendroModel.C04.Aux
+
+namespace DendroModel.C04
+open DendroModel DendroModel.C04.Aux
+
+/-- the driver's split → length function of a well-formed tree that is not rooted IS the drawn per-split table `usum` (seed not
+    bifurcating as drawn, at least three children after suppression; nothing assumed about the splits) -/
+theorem lenAt_eq_usum (r : Option Bool) (hr : r ≠ some true) (t : T) (hc : t.cs.length ≠ 2)
+    (hg : Hier.Good (T.toH t)) (h0 : T.mask t ≠ 0) (hw : WFT t) (hdeg : 3 ≤ (T.sup t).cs.length) (k : Int) :
+    lenAt (edgeMap (edgeRecs r t)) k = usum t k := by
+  have hb : (r == some true) = false := by
+    cases r with
+    | none => rfl
+    | some b => cases b <;> simp_all
+  have hn := unrooted_splits_nodup r hr t hg h0 (by rw [encodeTree_sup r t (Or.inr hc)]; exact hdeg)
+  rw [lenAt_eq_split_sum r t (Or.inr hc) hw hn k, hb]; rfl
+
+/-- **re-drawing a tree that is not rooted changes no weighted distance** — the weighted analogue of `fpfn_redraw_unrooted`,
+    along a whole path: `t'` is reached from `t` by ANY sequence of child reorderings, unifurcation insertions (length split) and
+    seed moves (`URedraw`; intermediate drawings are unconstrained).  For the two end drawings: well formed, lengths with
+    non-zero denominators, seed not bifurcating as drawn and with ≥ 3 children after suppression.  Then the split → length
+    functions coincide; wRF and Euclid² against any third tree agree, in both argument positions, whenever both are defined;
+    and both are 0 between the two drawings whenever defined.  (Definedness can differ only as in `dist_redraw_rooted`.) -/
+theorem dist_redraw_unrooted (r r' r2 : Option Bool) (hr : r ≠ some true) (hr' : r' ≠ some true) (t t' u : T) (h : URedraw t t')
+    (hc : t.cs.length ≠ 2) (hg : Hier.Good (T.toH t)) (h0 : T.mask t ≠ 0) (hw : WFT t) (hdeg : 3 ≤ (T.sup t).cs.length)
+    (hc' : t'.cs.length ≠ 2) (hg' : Hier.Good (T.toH t')) (hw' : WFT t') (hdeg' : 3 ≤ (T.sup t').cs.length) :
+    (∀ k, lenAt (edgeMap (edgeRecs r t)) k = lenAt (edgeMap (edgeRecs r' t')) k)
+    ∧ (∀ w w', wrf (edgeMap (edgeRecs r t)) (edgeMap (edgeRecs r2 u)) = some w →
+        wrf (edgeMap (edgeRecs r' t')) (edgeMap (edgeRecs r2 u)) = some w' → w = w')
+    ∧ (∀ w w', wrf (edgeMap (edgeRecs r2 u)) (edgeMap (edgeRecs r t)) = some w →
+        wrf (edgeMap (edgeRecs r2 u)) (edgeMap (edgeRecs r' t')) = some w' → w = w')
+    ∧ (∀ w w', euclidSq (edgeMap (edgeRecs r t)) (edgeMap (edgeRecs r2 u)) = some w →
+        euclidSq (edgeMap (edgeRecs r' t')) (edgeMap (edgeRecs r2 u)) = some w' → w = w')
+    ∧ (∀ w w', euclidSq (edgeMap (edgeRecs r2 u)) (edgeMap (edgeRecs r t)) = some w →
+        euclidSq (edgeMap (edgeRecs r2 u)) (edgeMap (edgeRecs r' t')) = some w' → w = w')
+    ∧ (∀ w, wrf (edgeMap (edgeRecs r t)) (edgeMap (edgeRecs r' t')) = some w → w = 0)
+    ∧ (∀ w, euclidSq (edgeMap (edgeRecs r t)) (edgeMap (edgeRecs r' t')) = some w → w = 0) := by
+  have hm := uredraw_mask h
+  have h0' : T.mask t' ≠ 0 := by rw [← hm]; exact h0
+  obtain ⟨htab, hset⟩ := uredraw_inv h h0
+  have hb : ∀ q : Option Bool, q ≠ some true → (q == some true) = false := by
+    intro q hq
+    cases q with
+    | none => rfl
+    | some b => cases b <;> simp_all
+  have hl : ∀ k, lenAt (edgeMap (edgeRecs r t)) k = lenAt (edgeMap (edgeRecs r' t')) k := by
+    intro k
+    rw [lenAt_eq_usum r hr t hc hg h0 hw hdeg k, lenAt_eq_usum r' hr' t' hc' hg' h0' hw' hdeg' k]; exact htab k
+  have hk : ∀ z, z ∈ keys (edgeMap (edgeRecs r t)) ↔ z ∈ keys (edgeMap (edgeRecs r' t')) := by
+    intro z
+    rw [keys_edgeMap, keys_edgeMap, mem_splits_iff r t (Or.inr hc), mem_splits_iff r' t' (Or.inr hc'), hb r hr, hb r' hr']
+    exact hset z
+  have n1 := nodup_edgeMap (edgeRecs r t)
+  have n1' := nodup_edgeMap (edgeRecs r' t')
+  have n2 := nodup_edgeMap (edgeRecs r2 u)
+  refine ⟨hl, ?_, ?_, ?_, ?_, ?_, ?_⟩
+  · intro w w' hw1 hw2; exact wrf_congr _ _ _ n1 n1' n2 hk hl w w' hw1 hw2
+  · intro w w' hw1 hw2
+    rw [wrf_symm _ _ n2 n1] at hw1; rw [wrf_symm _ _ n2 n1'] at hw2
+    exact wrf_congr _ _ _ n1 n1' n2 hk hl w w' hw1 hw2
+  · intro w w' hw1 hw2; exact euclidSq_congr _ _ _ n1 n1' n2 hk hl w w' hw1 hw2
+  · intro w w' hw1 hw2
+    rw [euclidSq_symm _ _ n2 n1] at hw1; rw [euclidSq_symm _ _ n2 n1'] at hw2
+    exact euclidSq_congr _ _ _ n1 n1' n2 hk hl w w' hw1 hw2
+  · intro w hw1; exact ((dist_zero_iff _ _ n1 n1').1 w hw1).mpr hl
+  · intro w hw1; exact ((dist_zero_iff _ _ n1 n1').2 w hw1).mpr hl
+
+end DendroModel.C04
+
+namespace DendroModel.C04
+open DendroModel DendroModel.C04.Aux
+
+/-- **one seed move of a well-formed tree that is not rooted changes no weighted distance** — `dist_seed_move_partial` with both
+    `Nodup` hypotheses discharged (`unrooted_splits_nodup`); an instance of `dist_redraw_unrooted` -/
+theorem dist_seed_move (r r2 : Option Bool) (hr : r ≠ some true) (u : T)
+    (i : Nat) (x : Option Nat) (l : Option Frac) (s : Option String) (pre : List T)
+    (j : Nat) (y : Option Nat) (lj : Option Frac) (sj : Option String) (ds post : List T)
+    (hds : ds ≠ []) (hpp : pre ++ post ≠ [])
+    (h3 : (pre ++ T.node j y lj sj ds :: post).length ≠ 2) (h3' : ds.length ≠ 1)
+    (hdis : T.maskL ds &&& T.maskL (pre ++ post) = 0)
+    (h0 : T.mask (.node i x l s (pre ++ .node j y lj sj ds :: post)) ≠ 0)
+    (hg : Hier.Good (T.toH (.node i x l s (pre ++ .node j y lj sj ds :: post))))
+    (hg' : Hier.Good (T.toH (invertT i x l s pre j y lj sj ds post)))
+    (hw : WFT (.node i x l s (pre ++ .node j y lj sj ds :: post))) (hw' : WFT (invertT i x l s pre j y lj sj ds post))
+    (hdeg : 3 ≤ (T.sup (.node i x l s (pre ++ .node j y lj sj ds :: post))).cs.length)
+    (hdeg' : 3 ≤ (T.sup (invertT i x l s pre j y lj sj ds post)).cs.length) :
+    (∀ k, lenAt (edgeMap (edgeRecs r (.node i x l s (pre ++ .node j y lj sj ds :: post)))) k
+          = lenAt (edgeMap (edgeRecs r (invertT i x l s pre j y lj sj ds post))) k)
+    ∧ (∀ w w', wrf (edgeMap (edgeRecs r (.node i x l s (pre ++ .node j y lj sj ds :: post)))) (edgeMap (edgeRecs r2 u)) = some w →
+        wrf (edgeMap (edgeRecs r (invertT i x l s pre j y lj sj ds post))) (edgeMap (edgeRecs r2 u)) = some w' → w = w')
+    ∧ (∀ w w', euclidSq (edgeMap (edgeRecs r (.node i x l s (pre ++ .node j y lj sj ds :: post)))) (edgeMap (edgeRecs r2 u)) = some w →
+        euclidSq (edgeMap (edgeRecs r (invertT i x l s pre j y lj sj ds post))) (edgeMap (edgeRecs r2 u)) = some w' → w = w')
+    ∧ (∀ w, wrf (edgeMap (edgeRecs r (.node i x l s (pre ++ .node j y lj sj ds :: post))))
+          (edgeMap (edgeRecs r (invertT i x l s pre j y lj sj ds post))) = some w → w = 0)
+    ∧ (∀ w, euclidSq (edgeMap (edgeRecs r (.node i x l s (pre ++ .node j y lj sj ds :: post))))
+          (edgeMap (edgeRecs r (invertT i x l s pre j y lj sj ds post))) = some w → w = 0) := by
+  obtain ⟨a, b, _, c, _, d, e⟩ := dist_redraw_unrooted r r r2 hr hr _ _ u
+    (URedraw.move i x l s pre j y lj sj ds post hds hpp hdis)
+    (by simpa [T.cs] using h3) hg h0 hw hdeg (by simp [invertT, T.cs]; omega) hg' hw' hdeg'
+  exact ⟨a, b, c, d, e⟩
+
+/-- non-vacuity of `dist_redraw_unrooted`: a two-step path — the seed of `exU = ((t0,t1),t2,t3)` moved to its inner vertex,
+    then two children of the new seed swapped — with every hypothesis on the two end drawings checked -/
+example :
+    let ds : List T := [.node 2 (some 0) none none [], .node 3 (some 1) none none []]
+    let post : List T := [.node 4 (some 2) none none [], .node 5 (some 3) none none []]
+    let mid : T := invertT 0 none none none [] 1 none none none ds post
+    let fin : T := .node 1 none none none ([] ++ (.node 3 (some 1) none none [] : T) :: .node 2 (some 0) none none [] :: [.node 0 none none none post])
+    URedraw exU fin ∧ exU.cs.length ≠ 2 ∧ fin.cs.length ≠ 2 ∧ 3 ≤ (T.sup exU).cs.length ∧ 3 ≤ (T.sup fin).cs.length
+      ∧ WFT exU ∧ WFT fin ∧ Hier.Good (T.toH fin) ∧ mid = mid := by
+  refine ⟨?_, by decide, by decide, by decide, by decide, ?_, ?_, ?_, rfl⟩
+  · exact (URedraw.move 0 none none none [] 1 none none none _ _ (by simp) (by simp) (by decide)).trans
+      (URedraw.redraw (Redraw.swap 1 none none none [] _ _ _))
+  · simp [exU, WFT, WFTL, OWF]
+  · simp [WFT, WFTL, OWF]
+  · simp [T.toH, T.toHL, Hier.Good, Hier.GoodL, Hier.mask, Hier.maskL]
+
+end DendroModel.C04
+
+/-! ## `invertT` and the `reseed_at` model of C07 -/
+
+namespace DendroModel.C04.Aux
+open DendroModel DendroModel.C04
+
+mutual
+theorem inv_none (tgt : Nat) : ∀ (c : T) (l : Option Frac) (ups : List T), T.find? tgt c = none → C07.inv tgt c l ups = none
+  | .node i x l0 s cs, l, ups, h => by
+    simp only [T.find?] at h
+    by_cases e : (tgt == i) = true
+    · simp [e] at h
+    · simp only [e, Bool.false_eq_true, if_false] at h
+      have e' : (i == tgt) = false := by
+        simp only [beq_iff_eq] at e ⊢
+        simpa using fun h' : i = tgt => e h'.symm
+      simp only [C07.inv, e', Bool.false_eq_true, if_false]
+      exact invL_none tgt cs i x s l [] ups h
+theorem invL_none (tgt : Nat) : ∀ (cs : List T) (i : Nat) (x : Option Nat) (s : Option String) (l : Option Frac) (pre ups : List T),
+    T.findL? tgt cs = none → C07.invL tgt i x s l pre cs ups = none
+  | [], _, _, _, _, _, _, _ => by simp [C07.invL]
+  | c :: cs, i, x, s, l, pre, ups, h => by
+    simp only [T.findL?] at h
+    cases hc : T.find? tgt c with
+    | some r => rw [hc] at h; cases h
+    | none =>
+      rw [hc] at h
+      simp only [C07.invL, inv_none tgt c l _ hc]
+      exact invL_none tgt cs i x s l _ ups h
+end
+
+theorem invL_skip (tgt i : Nat) (x : Option Nat) (s : Option String) (l : Option Frac) (ups rest : List T) :
+    ∀ (a pre0 : List T), T.findL? tgt a = none →
+      C07.invL tgt i x s l pre0 (a ++ rest) ups = C07.invL tgt i x s l (pre0 ++ a) rest ups
+  | [], pre0, _ => by simp
+  | c :: a, pre0, h => by
+    simp only [T.findL?] at h
+    cases hc : T.find? tgt c with
+    | some r => rw [hc] at h; cases h
+    | none =>
+      rw [hc] at h
+      simp only [List.cons_append, C07.invL, inv_none tgt c l _ hc]
+      rw [invL_skip tgt i x s l ups rest a (pre0 ++ [c]) h]
+      simp
+
+end DendroModel.C04.Aux
+
+namespace DendroModel.C04
+open DendroModel DendroModel.C04.Aux
+
+/-- **`invertT` is what `Tree.reseed_at` does on the tree as drawn, for a move along one edge**: the chain-of-inversions model of
+    `reseed_at` + `Edge.invert` that C07 runs and compares with the library (`C07.invertTo`), asked to make the seed's child with
+    id `j` the seed, returns exactly `invertT` (ids distinct: the seed is not `j` and no earlier sibling subtree contains `j`).
+    A deeper target is a chain of such moves, each again of this form on the tree the previous one produced (`C07.inv` recurses
+    into the child with the old seed appended as `ups`); that iteration is not restated here. -/
+theorem reseed_one_edge_is_invertT (i : Nat) (x : Option Nat) (l : Option Frac) (s : Option String) (pre : List T)
+    (j : Nat) (y : Option Nat) (lj : Option Frac) (sj : Option String) (ds post : List T)
+    (hij : i ≠ j) (hpre : T.findL? j pre = none) :
+    C07.invertTo j (.node i x l s (pre ++ .node j y lj sj ds :: post)) = invertT i x l s pre j y lj sj ds post := by
+  have e : (i == j) = false := by simpa using hij
+  unfold C07.invertTo
+  simp only [C07.inv, e, Bool.false_eq_true, if_false, T.len]
+  rw [invL_skip j i x s l [] _ pre [] hpre]
+  simp [C07.invL, C07.inv, invertT, T.len]
+
+example : C07.invertTo 1 exU = invertT 0 none none none [] 1 none none none
+    [.node 2 (some 0) none none [], .node 3 (some 1) none none []] [.node 4 (some 2) none none [], .node 5 (some 3) none none []] :=
+  reseed_one_edge_is_invertT 0 none none none [] 1 none none none _ _ (by decide) rfl
+
 end DendroModel.C04
